@@ -292,6 +292,19 @@ IndexM(A) ==
            /\ case' = [op |-> "index_m", x |-> A, e |-> e]
            /\ res' = IF keep = {} THEN NumRes(D.v[1], "must")
                      ELSE ValRes("ttm", SubSeq(D.sh, 1, Len(ks)), SubSeq(D.sh, Len(ks) + 1, 2*Len(ks)), D, "must")
+\* operators: a None pair (row and column position alike) inserts a (1,1) mode
+IndexMNone(A) ==
+    /\ "index_m" \in OPS /\ A.k = "ttm" /\ Len(A.I) <= 2
+    /\ \E re \in BaseExprs(A.I, 1, 4), ce \in BaseExprs(A.J, 1, 4), q \in 0..Len(A.I) :
+        LET d == Len(A.I)
+            e == InsAfter(re, q, NoneItem) \o InsAfter(ce, q, NoneItem)
+            plain == re \o ce IN
+        /\ \A p \in 1..d : re[p].t = ce[p].t
+        /\ ValidIndex(plain, A.I \o A.J)
+        /\ LET D == DIndex(Full(Mk(A)), e)
+               nk == Cardinality({p \in 1..d : re[p].t = "s"}) + 1 IN
+           /\ case' = [op |-> "index_m", x |-> A, e |-> e]
+           /\ res' = ValRes("ttm", SubSeq(D.sh, 1, nk), SubSeq(D.sh, nk + 1, 2 * nk), D, "must")
 MaskRows(sh, K, f) == [k \in 1..K |-> [p \in 1..Len(sh) |-> ((k*7 + p*3 + f + k*p) % sh[p]) + 1]]   \* 1-based
 ApplyMask(x) ==
     /\ "apply_mask" \in OPS /\ x.k = "tt"
@@ -404,7 +417,7 @@ AlgNext(x) ==
     \/ Meshgrid(x)
     \/ \E op \in {"norm2", "norm", "sum_all", "sum_axes"} : Reductions(op, x)
     \/ Dot(x) \/ DotAxes(x) \/ Bilinear(x)
-    \/ IndexT(x) \/ IndexM(x) \/ ApplyMask(x)
+    \/ IndexT(x) \/ IndexM(x) \/ IndexMNone(x) \/ ApplyMask(x)
     \/ Cat(x) \/ Cat3(x) \/ PadT(x) \/ PadM(x) \/ MProd(x) \/ MProdRep(x)
     \/ \E op \in {"save_load", "clone_c", "detach", "to_dtype", "to_both", "to_pos", "to_device", "to_none", "cpu", "numpy"} : Copies(op, x)
     \/ LayerForward(x)
